@@ -3,9 +3,10 @@ C15 — URLs keep their meaning between IRI, URI, environ and request.
 Property theorems only (helper lemmas live in Lemmas/Url.lean).
 
 Opaque to the model (validated by the streams only): urlsplit / urlunsplit, the IDNA codec.
-Known findings (IDNA / urlsplit are outside the model, so they have no Lean counterpart):
-F15a `uri_to_iri` raises UnicodeError for a malformed `xn--` label, F15b `uri_to_iri` unquotes
-`%5B` / `%5D` inside the userinfo.
+Repaired in /repo and kept as regression cases of stream iri-uri: F15a (`_decode_idna` now leaves a
+malformed `xn--` label as punycode, c7898ed - IDNA is opaque here), F15b (`[` and `]` are now in the
+keep-quoted set of the userinfo, 319c4e1 - stated in `keep_tables_cover_reserved`).
+Known finding F15c (EnvironBuilder: urlsplit drops TAB/CR/LF) is outside the model (urlsplit opaque).
 
 All theorems listed in DESIGN.md for C15 (P0 and P1) are proved below; nothing is left OPEN.
 -/
@@ -127,7 +128,8 @@ theorem iriToUri_idempotent_parts (p : Parts) :
 
 /-- `%` (0x25) and every C0 control, SP and DEL stay quoted in every component of `uri_to_iri`, and
 each component keeps its own delimiters quoted (tables evaluated from the live compiled patterns):
-path `/?#`, query `&=+#`, userinfo `:@/?#`. -/
+path `/?#`, query `&=+#`, userinfo `:@/?#[]` - the brackets included, so that unquoting can never
+produce a netloc that `urlsplit` reads as an (invalid) IPv6 literal (former finding F15b). -/
 theorem keep_tables_cover_reserved :
     (∀ n ∈ Gen.UrlTables.alwaysUnsafe, tbl Gen.UrlTables.keepPath n = true ∧
       tbl Gen.UrlTables.keepQuery n = true ∧ tbl Gen.UrlTables.keepFragment n = true ∧
@@ -135,7 +137,7 @@ theorem keep_tables_cover_reserved :
     (∀ n, n ≤ 0x20 ∨ n = 0x25 ∨ n = 0x7f → n ∈ Gen.UrlTables.alwaysUnsafe) ∧
     (∀ c ∈ ['/', '?', '#'], tbl Gen.UrlTables.keepPath c.toNat = true) ∧
     (∀ c ∈ ['&', '=', '+', '#'], tbl Gen.UrlTables.keepQuery c.toNat = true) ∧
-    (∀ c ∈ [':', '@', '/', '?', '#'], tbl Gen.UrlTables.keepUser c.toNat = true) := by
+    (∀ c ∈ [':', '@', '/', '?', '#', '[', ']'], tbl Gen.UrlTables.keepUser c.toNat = true) := by
   refine ⟨by decide, ?_, by decide, by decide, by decide⟩
   intro n hn
   have : n < 128 := by omega
